@@ -49,7 +49,7 @@ func run(c *vf.Ctx) {
 		}
 		sp := chain.Spec(n)
 		m := &chain.Model{Name: "union", Spec: sp, Menu: menu, Opt: opt,
-			H: vf.Pick[uint64](c, 8, 10), D: vf.Pick(c, 2, 3), K: 1, R: R}
+			H: vf.Pick[uint64](c, 7, 10), D: 3, K: 1, R: R}
 		if sp.Name == "mixed" {
 			m.SkipStart = 3
 			m.H += 3
